@@ -15,7 +15,7 @@ from worlds import dlis_logical as DL, dlis_phys as P
 
 PROPERTY = 'C04'
 LEVEL = 'exploration'
-RUNS = {'quick': 1500, 'thorough': 40000}
+RUNS = {'quick': 16000, 'thorough': 400000}
 RULE = ('scenario = seeded logical model (1..3 logical files, 1..3 interleaved frame types, channels of codes FSINGL ISINGL FDOUBL SSHORT SNORM '
         'SLONG USHORT UNORM ULONG with dimensions [1], [n], [m,n], empty IFLRs, non-consecutive frame numbers, seeded physical layout) and an '
         'explicit history of <= 12 populate / fetch operations on one LogicalIndex over SimFile; non-trivial = a reach probe fires (partial '
